@@ -6,6 +6,7 @@
 #include "notime.hpp"
 #include <ompl/control/SpaceInformation.h>
 #include <ompl/control/PathControl.h>
+#include <ompl/control/SimpleDirectedControlSampler.h>
 #include <ompl/control/spaces/RealVectorControlSpace.h>
 #include <ompl/control/planners/rrt/RRT.h>
 #include <ompl/control/planners/sst/SST.h>
@@ -27,10 +28,11 @@ struct CCfg
     double threshold = 0.4;
     int budget = 60;
     bool counting = false;  // point system on the allocation-counting R^2 (C03's leak / double-free clause)
+    int kdir = 1;           // number of candidate controls of the library's SimpleDirectedControlSampler (1 = the default allocation)
     std::string json() const
     {
         return "\"planner\":" + vf::jesc(planner) + ",\"map\":" + vf::jesc(map) + ",\"system\":" + vf::jesc(system) + ",\"stepSize\":" + vf::jnum(stepSize) + ",\"minD\":" + std::to_string(minD) +
-               ",\"maxD\":" + std::to_string(maxD) + ",\"threshold\":" + vf::jnum(threshold) + ",\"budget\":" + std::to_string(budget);
+               ",\"maxD\":" + std::to_string(maxD) + ",\"threshold\":" + vf::jnum(threshold) + ",\"budget\":" + std::to_string(budget) + (kdir != 1 ? ",\"kdir\":" + std::to_string(kdir) : std::string());
     }
     static CCfg fromJson(const vf::JV &v)
     {
@@ -43,6 +45,8 @@ struct CCfg
         c.maxD = v["maxD"].i();
         c.threshold = v["threshold"].d();
         c.budget = v["budget"].i();
+        if (v.has("kdir"))
+            c.kdir = v["kdir"].i();
         return c;
     }
 };
@@ -181,6 +185,12 @@ struct CProblem
                 t[1] = y;
             }
         });
+        if (c.kdir > 1)
+        {
+            // the documented k-control mode: the library's own directed sampler picks the best of k propagated candidates
+            int k = c.kdir;
+            si->setDirectedControlSamplerAllocator([k](const oc::SpaceInformation *s) { return std::make_shared<oc::SimpleDirectedControlSampler>(s, k); });
+        }
         si->setPropagationStepSize(c.stepSize);
         si->setMinMaxControlDuration(c.minD, c.maxD);
         si->setStateValidityCheckingResolution(0.02);
@@ -453,6 +463,11 @@ static std::vector<CCfg> configs(const std::string &planner, bool thorough)
         add("wallgap4", "point", 0.25, 1, 3, 60);
         add("wallgap4", "unicycle", 0.25, 1, 3, 60);
         add("diag4", "point", 1.0, 1, 1, 40);
+        if (planner == "SyclopRRT")
+        {
+            add("wallgap4", "point", 0.25, 1, 3, 60);
+            v.back().kdir = 3;
+        }
         if (thorough)
             add("maze6", "point", 0.25, 2, 5, 80);
         return v;
@@ -464,6 +479,16 @@ static std::vector<CCfg> configs(const std::string &planner, bool thorough)
     add("wallgap4", "unicycle", 0.25, 1, 3, 80);
     add("empty4", "unicycle", 0.25, 2, 5, 60);
     add("startobst4", "point", 0.25, 1, 3, 30);
+    if (planner != "SST" && planner != "KPIECE1")  // these two never ask the directed sampler
+    {
+        // k-control mode of the library's directed sampler: candidates truncated by obstacles compete with complete ones
+        add("wallgap4", "point", 0.25, 1, 3, 80);
+        v.back().kdir = 3;
+        add("maze6", "point", 0.25, 2, 5, 80);
+        v.back().kdir = 2;
+        add("wallgap4", "unicycle", 0.25, 1, 3, 80);
+        v.back().kdir = 3;
+    }
     if (thorough)
     {
         add("utrap4", "point", 0.25, 1, 3, 120);
